@@ -141,6 +141,8 @@ def run_shard(params, rec):
         case = Case(n, edges, rng, rng.choice(["int", "str", "tuple"]))
         rec.count("graphs_random")
         rec.count("graphs_random:n=%d" % n)
+        if i % 40 == 0:
+            rec.sample(dict(nodes=n, edges=edges[:30], kind="random graph; every node is tried as head and leaf"))
         sparse = len(edges) <= 2 * n and n <= 8
         mon.check_graph(case, walks_k=(1 if len(edges) <= n + 2 and n <= 6 else None),
                         paths=sparse)
